@@ -133,6 +133,23 @@ def check_state(acc, pendulum, z, inst):
         if type(v) is not t:
             acc.mismatch("result-type", k, case, type(v).__name__, t.__name__)
     check_constructors(acc, pendulum, z, inst, x, b, case)
+    for kw in REPLACE_DT:
+        if z is not None and not isinstance(z, int) and "tzinfo" not in kw:
+            # replacing wall fields inside a named zone is construction (C02): compare only where the target wall
+            # time exists exactly once, so that fold plays no part
+            try:
+                tgt = obs.fields(b.replace(**kw))
+            except ValueError:
+                tgt = None
+            if tgt is not None and len(tzref.zone(z).solve(obs.wall_us(tgt) // US)) != 1:
+                continue
+        got, want = _try(lambda: x.replace(**kw)), _try(lambda: b.replace(**kw))
+        acc.c["evaluations"] += 1
+        acc.c["transitions"] += 1
+        if got[0] == "ok" and want[0] == "ok":
+            got, want = ("ok", got[1][:3]), ("ok", want[1][:3])     # fields and offset (the raw fold flag is C02's business)
+        if got != want:
+            acc.mismatch("replace", "+".join(sorted(kw)), dict(case, kw={k: str(v) for k, v in kw.items()}), got, want)
     f7 = obs.fields(x)
     iso = x.isoformat()
     mix = {"for_json": (x.for_json(), iso), "format-empty": (format(x, ""), str(x)), "str": (str(x), b.isoformat(" ")),
@@ -242,6 +259,12 @@ def check_pair(acc, pendulum, zx, ix, zy, iy):
                 acc.mismatch("subtract", "type", case, type(x - y).__name__, "Interval")
 
 
+REPLACE_TIME = ({"hour": 0}, {"minute": 0}, {"second": 0}, {"microsecond": 0}, {"second": 0, "microsecond": 0},
+                {"hour": 23, "minute": 59}, {"microsecond": 999999}, {"tzinfo": None}, {"tzinfo": dt_.timezone.utc}, {"fold": 1})
+REPLACE_DT = ({"hour": 0}, {"minute": 0}, {"second": 0}, {"microsecond": 0}, {"month": 1, "day": 1}, {"year": 2000, "month": 2, "day": 29},
+              {"hour": 0, "minute": 0, "second": 0, "microsecond": 0}, {"tzinfo": None}, {"tzinfo": dt_.timezone.utc})
+
+
 def check_date(acc, pendulum, n1, n2):
     f1, f2 = calref.civil_from_days(n1), calref.civil_from_days(n2)
     x, b = pendulum.Date(*f1), dt_.date(*f1)
@@ -315,6 +338,12 @@ def check_time(acc, pendulum, u1, u2, tzname):
             acc.mismatch("time-eq-hash", "twin", case, [x == b, hash(x) == hash(b)], [True, True])
         if type(x.replace(minute=1)) is not pendulum.Time:
             acc.mismatch("result-type", "Time.replace", case, type(x.replace(minute=1)).__name__, "Time")
+        for kw in REPLACE_TIME:
+            got, want = _try(lambda: x.replace(**kw)), _try(lambda: b.replace(**kw))
+            acc.c["evaluations"] += 1
+            acc.c["transitions"] += 1
+            if got != want:
+                acc.mismatch("time-replace", "+".join(sorted(kw)), dict(case, kw={k: str(v) for k, v in kw.items()}), got, want)
     for name, fn in OPS:
         got, nat = _try(lambda: fn(x, y)), _try(lambda: fn(b, yb))
         acc.c["evaluations"] += 1
